@@ -10,6 +10,7 @@ import random
 from .. import campaign as C
 from .. import isa_gen as G
 from .. import sweeps as S
+from .. import tlc
 from ..tlc import MachineryError
 from ..words import limbs, rand32
 from .c11 import EXT_CFG, bit
@@ -170,6 +171,40 @@ def roundtrip_task(task):
     return [g]
 
 
+def sys_schedule_replay(ctx, printed, keep):
+    """spec -> code: MC_Sys schedules (Step / IRQ / FIQ interleavings of a small program with an SVC) replayed on a real
+    instance: Step = emulate_cycle(), IRQ / FIQ = take_physical_irq/fiq_exception(); every action is one event judged by TLC"""
+    inits = {x['v']: x for x in printed if x['kind'] == 'init'}
+    scheds = sorted((x for x in printed if x['kind'] == 'sched'), key=repr)
+    scheds = [x for i, x in enumerate(scheds) if keep(i)]
+    groups = {}
+    for vname, ini in inits.items():
+        g = S.mk_group(dict(name='mcsys-' + vname, cfg={'arch_version': 7}))
+        st = g.fresh()
+        for r in st['R']:
+            st['R'][r] = ini['R'][r]
+        st['cpsr'] = ini['cpsr']
+        for m in st['spsr']:
+            st['spsr'][m] = limbs(0)
+        st['elr'] = limbs(0)
+        for k in st['sys']:
+            st['sys'][k] = limbs(0)
+        st['sys']['SCTLR'], st['sys']['VBAR'] = ini['sctlr'], ini['vbar']
+        st['mem']['base'][0] = list(ini['mem'])
+        st['ev'] = {'evreg': 0, 'wfe': 0, 'wfi': 0}
+        C.M.inject(g.arm, dict(st, osys={}, memsz=[]))
+        g.base = C.M.project(g.arm)
+        groups[vname] = (g, st)
+    for si, sc in enumerate(scheds):
+        g, st0 = groups[sc['v']]
+        cur = st0
+        for k, a in enumerate(sc['sched']):
+            e, post = g.add(cur, {'n': a}, meta={'gen': 'mcsys', 'schedule': si, 'k': k, 'a': a, 'mode': None})
+            cur = {kk: post[kk] for kk in ('R', 'cpsr', 'spsr', 'elr', 'sys', 'mem', 'ev')}
+        ctx.behaviours += 1
+    return [g.data() for g, _ in groups.values()], len(scheds)
+
+
 def clause_filter(c, v, e):
     if c == 'hosterror':
         return True
@@ -194,6 +229,15 @@ def run(ctx):
         tasks.append((roundtrip_task, dict(name='roundtrip-%d' % i, seed=ctx.seed + 60 + i, n=300 if q else 6000,
                                            cfg={'arch_version': 7})))
     groups = C.parallel(_dispatch, tasks)
+    # whole-machine interleavings: MC_Sys checks interrupt transparency on the spec; its schedules are replayed on the real code
+    ctx.mc('MC_Sys', constants={'GEN': 'FALSE', 'MAXI': '2' if q else '3'}, coverage=False, timeout=3000)
+    rs = ctx.mc('MC_Sys', constants={'GEN': 'TRUE', 'MAXI': '2'}, coverage=False, timeout=3000)
+    printed = tlc.printed_json(rs['out'])
+    if sum(1 for x in printed if x['kind'] == 'sched') < 500:
+        raise MachineryError('MC_Sys printed only %d schedules' % len(printed))
+    sysg, nsched = sys_schedule_replay(ctx, printed, (lambda i: (i + ctx.seed) % 3 == 0) if q else (lambda i: True))
+    groups += sysg
+    ctx.extra['mc_sys_schedules_replayed'] = nsched
 
     def tags(g, e, v):
         m = g.meta.get(e['id'], {})
